@@ -210,11 +210,23 @@ def main():
                 j = max(k for k in range(len(xp) - 1) if xp[k] <= tv)
                 out[idx] = fp[j] + (fp[j + 1] - fp[j]) * ((tv - xp[j]) / (xp[j + 1] - xp[j]))
         return out
+    SHARED_WRITES = []
     class SerialPool:
+        """jobs run one after the other in the calling thread; in exchange every array the job function can see through its closure is
+        compared before / after each job: a job that writes to such an array shares mutable state with the jobs of the other workers"""
         def __init__(s, max_workers=None): s.max_workers = max_workers
         def __enter__(s): return s
         def __exit__(s, *a): return False
-        def map(s, f, it): return [f(x) for x in it]
+        def map(s, f, it):
+            cells = [(n, c.cell_contents) for n, c in zip(f.__code__.co_freevars, f.__closure__ or ()) if isinstance(getattr(c, "cell_contents", None), np.ndarray)]
+            out = []
+            for x in it:
+                before = [a.copy() for _, a in cells]
+                out.append(f(x))
+                for (n, a), b in zip(cells, before):
+                    same = a.shape == b.shape and all((p is q) or (not isinstance(p, Sym) and not isinstance(q, Sym) and p == q) or (isinstance(p, Sym) and isinstance(q, Sym) and p.t.eq(q.t)) for p, q in zip(a.ravel().tolist() if a.dtype != object else a.ravel(), b.ravel().tolist() if b.dtype != object else b.ravel()))
+                    if not same: SHARED_WRITES.append(n)
+            return out
     class _CF:
         ThreadPoolExecutor = SerialPool
     class _NPI(pysym.NPProxy):
@@ -236,6 +248,7 @@ def main():
             S2 = np.array([[var("u_%d_%d" % (i, j)) for j in range(len(theta))] for i in range(n)], dtype=object); a, b = var("a"), var("b")
             sh = np.full((n, len(theta)), 0.25); osz = n + padv; th = np.array(theta)
             mask = np.zeros((osz, osz), bool); mask[::2, 1::2] = True; mask[1, 1] = True
+            del SHARED_WRITES[:]
             with pysym.patched((RI, "np", _NPI()), (RI, "concurrent", type("C", (), {"futures": _CF}))):
                 call = lambda S, w, m=None: RI.iradon(S, theta=th, output_size=osz, filter_name=None, interpolation="linear", projection_shifts=sh, mask=m, workers=w)
                 r1 = call(S1, 1); goals = []
@@ -245,6 +258,7 @@ def main():
                 rm = call(S1, 2, mask)
                 goals.append(("iradon with an ROI mask = unmasked reconstruction on the mask and 0 elsewhere", z3.And([T(x) == (T(y) if m else 0) for x, y, m in zip(rm.ravel(), r1.ravel(), mask.ravel())])))
                 r2 = call(S2, 1); rl = call(a * S1 + b * S2, 3)
+                goals.append(("no pool job of iradon writes to an array that the jobs of the other workers can see (closure of the job function)%s" % ((": " + ", ".join(sorted(set(SHARED_WRITES)))) if SHARED_WRITES else ""), z3.BoolVal(not SHARED_WRITES)))
                 goals.append(("iradon is linear in the sinogram", z3.And([T(x) == a.t * T(y) + b.t * T(z) for x, y, z in zip(rl.ravel(), r1.ravel(), r2.ravel())])))
             return dict(goals=goals, inputs={})
         return run
@@ -255,6 +269,11 @@ def main():
             for w in (2, 3, 4, 7):
                 rw = RI.iradon(S, theta=th, output_size=osz, filter_name=None, projection_shifts=sh, workers=w)
                 if not np.allclose(rw, r1, rtol=1e-9, atol=1e-12): return True, "iradon(workers=%d) differs from workers=1 for a %dx%d sinogram: max diff %g" % (w, n, len(theta), abs(rw - r1).max())
+            if "pool job" in label:      # shared mutable state between real pool threads: a larger problem, many projections, repeated runs
+                big = rng.uniform(0, 1, (96, 180)); tb = np.linspace(0, 180, 180, endpoint=False); ref = RI.iradon(big, theta=tb, filter_name=None, workers=1)
+                for rep in range(12):
+                    rw = RI.iradon(big, theta=tb, filter_name=None, workers=8)
+                    if not np.allclose(rw, ref, rtol=1e-9, atol=1e-12): return True, "iradon(workers=8) differs from workers=1 on a 96x180 sinogram (run %d): max diff %g - the pool threads share mutable state" % (rep, abs(rw - ref).max())
             mask = np.zeros((osz, osz), bool); mask[::2, 1::2] = True; mask[1, 1] = True
             rm = RI.iradon(S, theta=th, output_size=osz, filter_name=None, projection_shifts=sh, workers=2, mask=mask)
             if not (np.allclose(rm[mask], r1[mask]) and (rm[~mask] == 0).all()): return True, "masked reconstruction differs from the unmasked one on the mask"
